@@ -877,7 +877,9 @@ def k_includes(run, cases, observations):
         if c.get('tag') != 'files:include_graph':
             continue
         if limit is None:
-            run.count('include_graph:source_has_no_nesting_limit')
+            if not any(d['what'].startswith('the source has no nesting limit') for d in run.disagreements):
+                run.disagree({'op': 'files'}, 'compile_file limits the nesting depth (MAX_MOF_FILE_NESTING)', None,
+                             'the source has no nesting limit for compile_file: the model of nested compiles has no counterpart')
             continue
         # compile_file(main) itself is the first nesting level
         reqs.append({'op': 'files', 'files': c['model'], 'limit': limit, 'main': [{'file': 0}]})
